@@ -233,3 +233,203 @@ Proof.
   - rewrite fva_cons, IH. unfold arg_of_binding. destruct x as [v c ty]. simpl.
     destruct c; rewrite fvt_var; simpl; split; intros [H|H]; auto.
 Qed.
+
+(* ====================================================================================
+   Strict sortedness: the lists produced by tfv_* are strictly increasing w.r.t. the derived Ord, so
+   removing a binding really removes it (exactness of [bset_remove]).
+   ==================================================================================== *)
+From Coq Require Import Sorted OrderedTypeEx.
+
+Lemma string_compare_trans : forall a b c, String.compare a b = Lt -> String.compare b c = Lt -> String.compare a c = Lt.
+Proof.
+  intros a b c H1 H2. apply String_as_OT.cmp_lt. apply String_as_OT.cmp_lt in H1. apply String_as_OT.cmp_lt in H2.
+  eapply String_as_OT.lt_trans; eauto.
+Qed.
+Lemma string_compare_refl : forall a, String.compare a a = Eq.
+Proof. intros a. apply (proj2 (String_as_OT.cmp_eq a a)). reflexivity. Qed.
+
+Lemma cident_compare_refl : forall a, cident_compare a a = Eq.
+Proof. intros [a1 a2]. unfold cident_compare. simpl. rewrite string_compare_refl. apply N.compare_refl. Qed.
+Lemma cident_compare_trans : forall a b c, cident_compare a b = Lt -> cident_compare b c = Lt -> cident_compare a c = Lt.
+Proof.
+  intros [a1 a2] [b1 b2] [c1 c2]. unfold cident_compare. simpl.
+  destruct (String.compare a1 b1) eqn:E1; try discriminate;
+  destruct (String.compare b1 c1) eqn:E2; try discriminate; intros H1 H2.
+  - apply String_as_OT.cmp_eq in E1. apply String_as_OT.cmp_eq in E2. subst. rewrite string_compare_refl.
+    apply N.compare_lt_iff in H1. apply N.compare_lt_iff in H2. apply N.compare_lt_iff.
+    eapply N.lt_trans; eassumption.
+  - apply String_as_OT.cmp_eq in E1. subst. rewrite E2. reflexivity.
+  - apply String_as_OT.cmp_eq in E2. subst. rewrite E1. reflexivity.
+  - rewrite (string_compare_trans _ _ _ E1 E2). reflexivity.
+Qed.
+Lemma cchi_compare_refl : forall a, cchi_compare a a = Eq.
+Proof. intros [|]; reflexivity. Qed.
+Lemma cchi_compare_trans : forall a b c, cchi_compare a b = Lt -> cchi_compare b c = Lt -> cchi_compare a c = Lt.
+Proof. intros [|] [|] [|]; simpl; congruence. Qed.
+Lemma cty_compare_refl : forall a, cty_compare a a = Eq.
+Proof. intros [|x]; simpl; [reflexivity | apply cident_compare_refl]. Qed.
+Lemma cty_compare_trans : forall a b c, cty_compare a b = Lt -> cty_compare b c = Lt -> cty_compare a c = Lt.
+Proof. intros [|x] [|y] [|z]; simpl; try congruence. apply cident_compare_trans. Qed.
+
+Lemma cbinding_compare_refl : forall a, cbinding_compare a a = Eq.
+Proof.
+  intros [a1 a2 a3]. unfold cbinding_compare. simpl.
+  rewrite cident_compare_refl, cchi_compare_refl. apply cty_compare_refl.
+Qed.
+Lemma cbinding_compare_trans : forall a b c,
+  cbinding_compare a b = Lt -> cbinding_compare b c = Lt -> cbinding_compare a c = Lt.
+Proof.
+  intros [a1 a2 a3] [b1 b2 b3] [c1 c2 c3]. unfold cbinding_compare. simpl.
+  destruct (cident_compare a1 b1) eqn:E1; try discriminate;
+  destruct (cident_compare b1 c1) eqn:E2; try discriminate.
+  - apply cident_compare_eq in E1. apply cident_compare_eq in E2. subst. rewrite cident_compare_refl.
+    destruct (cchi_compare a2 b2) eqn:F1; try discriminate;
+    destruct (cchi_compare b2 c2) eqn:F2; try discriminate; intros H1 H2.
+    + apply cchi_compare_eq in F1. apply cchi_compare_eq in F2. subst. rewrite cchi_compare_refl.
+      eapply cty_compare_trans; eauto.
+    + apply cchi_compare_eq in F1. subst. rewrite F2. reflexivity.
+    + apply cchi_compare_eq in F2. subst. rewrite F1. reflexivity.
+    + rewrite (cchi_compare_trans _ _ _ F1 F2). reflexivity.
+  - intros _ _. apply cident_compare_eq in E1. subst. rewrite E2. reflexivity.
+  - intros _ _. apply cident_compare_eq in E2. subst. rewrite E1. reflexivity.
+  - intros _ _. rewrite (cident_compare_trans _ _ _ E1 E2). reflexivity.
+Qed.
+Lemma cident_compare_antisym : forall a b, cident_compare a b = CompOpp (cident_compare b a).
+Proof.
+  intros [a1 a2] [b1 b2]. unfold cident_compare. simpl.
+  pose proof (String_as_OT.cmp_antisym a1 b1) as Ha. unfold String_as_OT.cmp in Ha. rewrite Ha.
+  destruct (String.compare b1 a1); simpl; try reflexivity. apply N.compare_antisym.
+Qed.
+Lemma cbinding_compare_antisym : forall a b, cbinding_compare a b = CompOpp (cbinding_compare b a).
+Proof.
+  intros [a1 a2 a3] [b1 b2 b3]. unfold cbinding_compare. simpl. rewrite (cident_compare_antisym a1 b1).
+  destruct (cident_compare b1 a1); simpl; try reflexivity.
+  assert (Hc : cchi_compare a2 b2 = CompOpp (cchi_compare b2 a2)) by (destruct a2, b2; reflexivity).
+  rewrite Hc. destruct (cchi_compare b2 a2); simpl; try reflexivity.
+  destruct a3 as [|x], b3 as [|y]; simpl; try reflexivity. apply cident_compare_antisym.
+Qed.
+
+Definition blt (a b : cbinding) : Prop := cbinding_compare a b = Lt.
+Definition bsorted (s : bset) : Prop := StronglySorted blt s.
+
+Lemma bsorted_nil : bsorted [].
+Proof. constructor. Qed.
+Lemma bsorted_insert : forall x s, bsorted s -> bsorted (bset_insert x s).
+Proof.
+  intros x s H. induction H as [|y r Hr IH Hall]; simpl.
+  - repeat constructor.
+  - destruct (cbinding_compare x y) eqn:E.
+    + constructor; assumption.
+    + constructor; [constructor; assumption|]. constructor; [exact E|].
+      rewrite Forall_forall in *. intros z Hz. eapply cbinding_compare_trans; [exact E | apply Hall; exact Hz].
+    + constructor; [exact IH|]. rewrite Forall_forall in *. intros z Hz. apply In_bset_insert in Hz.
+      destruct Hz as [Hz|Hz]; [|apply Hall; exact Hz]. subst z. unfold blt.
+      rewrite cbinding_compare_antisym, E. reflexivity.
+Qed.
+Lemma bsorted_remove : forall x s, bsorted s -> bsorted (bset_remove x s).
+Proof.
+  intros x s H. induction H as [|y r Hr IH Hall]; simpl; [constructor|].
+  destruct (cbinding_compare x y) eqn:E.
+  - exact Hr.
+  - constructor; assumption.
+  - constructor; [exact IH|]. rewrite Forall_forall in *. intros z Hz. apply Hall. eapply In_bset_remove_1. exact Hz.
+Qed.
+Lemma bsorted_union : forall c a, bsorted a -> bsorted (bset_union a c).
+Proof.
+  unfold bset_union. induction c as [|x r IH]; intros a H; simpl; [exact H|]. apply IH. apply bsorted_insert. exact H.
+Qed.
+Lemma bsorted_remove_ctx : forall ctx s, bsorted s -> bsorted (fold_left (fun acc x => bset_remove x acc) ctx s).
+Proof. induction ctx as [|x r IH]; intros s H; simpl; [exact H|]. apply IH. apply bsorted_remove. exact H. Qed.
+
+Lemma blt_irrefl : forall a, ~ blt a a.
+Proof. intros a H. unfold blt in H. rewrite cbinding_compare_refl in H. discriminate. Qed.
+
+(* exactness of removal on sorted sets *)
+Lemma In_bset_remove_3 : forall x s, bsorted s -> ~ In x (bset_remove x s).
+Proof.
+  intros x s H. induction H as [|y r Hr IH Hall]; simpl; [auto|].
+  destruct (cbinding_compare x y) eqn:E.
+  - apply cbinding_compare_eq in E. subst y. intros Hin. rewrite Forall_forall in Hall.
+    exact (blt_irrefl _ (Hall _ Hin)).
+  - intros [Hin|Hin]; [subst y; rewrite cbinding_compare_refl in E; discriminate|].
+    rewrite Forall_forall in Hall. pose proof (Hall _ Hin) as Hlt. unfold blt in Hlt.
+    rewrite cbinding_compare_antisym, E in Hlt. discriminate.
+  - intros [Hin|Hin]; [subst y; rewrite cbinding_compare_refl in E; discriminate | exact (IH Hin)].
+Qed.
+
+Lemma tfv_args_sorted_gen : forall l,
+  Forall (fun a => forall vars, bsorted vars -> bsorted (tfv_arg a vars)) l ->
+  forall vars, bsorted vars -> bsorted (tfv_args l vars).
+Proof.
+  intros l H. induction H as [|a r Ha Hr IH]; intros vars Hs; [exact Hs|].
+  rewrite tfv_args_cons. apply IH. apply Ha. exact Hs.
+Qed.
+Lemma tfv_clauses_sorted_gen : forall l,
+  Forall (fun a => forall vars, bsorted vars -> bsorted (tfv_clause a vars)) l ->
+  forall vars, bsorted vars -> bsorted (tfv_clauses l vars).
+Proof.
+  intros l H. induction H as [|a r Ha Hr IH]; intros vars Hs; [exact Hs|].
+  rewrite tfv_clauses_cons. apply IH. apply Ha. exact Hs.
+Qed.
+
+Lemma tfv_sorted :
+  (forall t vars, bsorted vars -> bsorted (tfv_term t vars)) /\
+  (forall a vars, bsorted vars -> bsorted (tfv_arg a vars)) /\
+  (forall c vars, bsorted vars -> bsorted (tfv_clause c vars)) /\
+  (forall s vars, bsorted vars -> bsorted (tfv_stmt s vars)).
+Proof.
+  apply core_mutind.
+  - intros c v t vars H. simpl. apply bsorted_insert. exact H.
+  - intros n vars H. exact H.
+  - intros a o b IHa IHb vars H. simpl. apply IHb. apply IHa. exact H.
+  - intros c v s t IHs vars H. simpl. apply bsorted_union. exact H.
+  - intros c x args t H vars Hs. change (tfv_term (CXtor c x args t) vars) with (tfv_args args vars).
+    apply tfv_args_sorted_gen; assumption.
+  - intros c cls t H vars Hs. change (tfv_term (CXCase c cls t) vars) with (tfv_clauses cls vars).
+    apply tfv_clauses_sorted_gen; assumption.
+  - intros p IH vars H. simpl. apply IH. exact H.
+  - intros k IH vars H. simpl. apply IH. exact H.
+  - intros c x ctx body IH vars H. simpl. apply bsorted_union. exact H.
+  - intros p t k IHp IHk vars H. simpl. apply IHk. apply IHp. exact H.
+  - intros so a b t e IHa IHb IHt IHe vars H. simpl. apply IHe. apply IHt.
+    destruct b as [b'|]; simpl in IHb; [apply IHb|]; apply IHa; exact H.
+  - intros nl a next IHa IHn vars H. simpl. apply IHn. apply IHa. exact H.
+  - intros f args t H vars Hs. change (tfv_stmt (CCall f args t) vars) with (tfv_args args vars).
+    apply tfv_args_sorted_gen; assumption.
+  - intros a t IH vars H. simpl. apply IH. exact H.
+Qed.
+Lemma fvs_sorted : forall s, bsorted (fvs s).
+Proof. intros s. apply (proj2 (proj2 (proj2 tfv_sorted))). apply bsorted_nil. Qed.
+
+(* a mu-binder removes exactly its own binding *)
+Lemma fvt_mu_3 : forall c v s ty, ~ In (mkcb v (flip_chi c) ty) (fvt (CMu c v s ty)).
+Proof.
+  intros c v s ty H. unfold fvt in H. simpl in H. apply In_bset_union in H. destruct H as [[]|H].
+  exact (In_bset_remove_3 _ _ (fvs_sorted s) H).
+Qed.
+Lemma fvt_mu_iff : forall b c v s ty,
+  In b (fvt (CMu c v s ty)) <-> In b (fvs s) /\ b <> mkcb v (flip_chi c) ty.
+Proof.
+  intros b c v s ty. split.
+  - intros H. split; [eapply fvt_mu_1; exact H|]. intros E. subst b. exact (fvt_mu_3 _ _ _ _ H).
+  - intros [H1 H2]. apply fvt_mu_2; assumption.
+Qed.
+
+(* a clause removes exactly its context *)
+Lemma In_remove_ctx_3 : forall b ctx s, bsorted s -> In b ctx -> ~ In b (fold_left (fun acc x => bset_remove x acc) ctx s).
+Proof.
+  intros b ctx. induction ctx as [|x r IH]; intros s Hs Hin; simpl; [contradiction|].
+  destruct Hin as [E|Hin].
+  - subst x. intros H. apply In_remove_ctx_1 in H. exact (In_bset_remove_3 _ _ Hs H).
+  - apply IH; [apply bsorted_remove; exact Hs | exact Hin].
+Qed.
+Lemma fvc_cons_iff : forall b c x ctx body r, In b (fvc (CClause c x ctx body :: r)) <->
+  (In b (fvs body) /\ ~ In b ctx) \/ In b (fvc r).
+Proof.
+  intros b c x ctx body r. split.
+  - intros H. unfold fvc in H. rewrite tfv_clauses_cons, tfv_clauses_acc in H.
+    destruct H as [H|H]; [|right; exact H]. simpl in H. apply In_bset_union in H. destruct H as [[]|H].
+    left. split; [eapply In_remove_ctx_1; exact H|]. intros Hc.
+    exact (In_remove_ctx_3 _ _ _ (fvs_sorted body) Hc H).
+  - intros [[H1 H2]|H]; [apply fvc_cons_body; assumption | apply fvc_cons_tail; exact H].
+Qed.
